@@ -3,6 +3,7 @@ from __future__ import annotations
 
 import os
 import sys
+import time
 
 sys.path.insert(0, os.path.dirname(os.path.dirname(os.path.abspath(__file__))))
 import hlib  # noqa: E402
@@ -38,6 +39,12 @@ def gen_header(rng: hlib.Rng, malformed=False):
 
 def show_block(b) -> str:
     return hdr_args(b.header) + " " + hexs(b.data)
+
+
+def show_block_of_message(m) -> str:
+    """as `showMessage` of Drv/SecsI.lean: header of the last block, data, number of blocks"""
+    h = m.header
+    return " ".join(str(int(getattr(h, f))) for f in FIELDS) + " " + hexs(bytes(m.data)) + " n=" + str(len(m.blocks))
 
 
 def impl(fn):
@@ -367,6 +374,62 @@ def main():
         if bad:
             res.violate("reassembly", bad, {"systems": systems, "lens": [len(m[1]) for m in msgs], "order": [b.header.system for b in order]})
     hlib.compare_batch(res, drv, "Protocol._add_message_block vs Model.SecsI.reassemble", cases, lines, answers)
+
+    # ------------------------------------------------------------ E. the same through the REAL receive path of SecsIProtocol
+    # consecutive messages on the line whose blocks share system bytes and block numbers (a reply, then a primary of the other side's own
+    # numbering that happens to use the same system bytes; the same transaction id twice in a row): every message must come out
+    # whole.  Model side: reassembly of exactly the blocks in line order (domain `secsi reasm`).
+    import threading
+    import c17
+    cases, lines, answers = [], [], []
+    for i in range(24 if big else 8):
+        rr = rng.fork(f"rx{i}")
+        pair = c17.Pair(rr.fork("pair"), [rr.choice([1, 3, 64, 300])], False, 0)
+        try:
+            direction = rr.choice(["H2E", "E2H"])
+            snd, rkey = (pair.host, "E") if direction == "H2E" else (pair.equip, "H")
+            a_end = pair.ch if direction == "H2E" else pair.ce
+            a_end.name, a_end.peer.name = "a", "b"
+            base = rr.choice([0, 1, 7, 2**32 - 1, rr.range(0, 2**32 - 1)])
+            msgs = []
+            for k in range(rr.range(2, 5)):
+                system = base if rr.chance(2, 3) else (base + rr.range(1, 3)) % 2**32
+                body = rr.bytes(rr.choice([0, 1, 10, 244, 245, 500]))
+                msgs.append((system, rr.choice([1, 5, 6, 127]), rr.choice([0, 1, 2, 13, 14, 255]), rr.chance(1, 2), body))
+            oks = []
+            for system, st, fn, w, body in msgs:
+                out = {}
+
+                def go(system=system, st=st, fn=fn, w=w, body=body, out=out):
+                    try:
+                        out["r"] = snd.send_response(c17.Fn(st, fn, w, body), system)
+                    except Exception as exc:  # noqa: BLE001
+                        out["r"] = hlib.errkind(exc)
+                t = threading.Thread(target=go, daemon=True)
+                t.start()
+                t.join(15)
+                oks.append(out.get("r", "blocked"))
+            t_end = time.time() + 3
+            while time.time() < t_end and len(pair.got[rkey]) < len(msgs):
+                time.sleep(0.003)
+            time.sleep(0.01)
+            got = [(int(m.header.system), int(m.header.stream), int(m.header.function), bool(m.header.require_response), bytes(m.data)) for m in pair.got[rkey]]
+            case = {"direction": direction, "messages": [(sy, st, fn, w, len(b)) for sy, st, fn, w, b in msgs]}
+            res.count(("rx-path", direction, tuple(case["messages"])), sample=case if i < 2 else None)
+            if any(o is not True for o in oks):
+                res.violate("reassembly", f"send_response on a perfect line returned {oks}", case)
+            elif got != [(sy, st, fn, w, b) for sy, st, fn, w, b in msgs]:
+                res.violate("reassembly", "messages sent one after the other over a perfect SECS-I line (some sharing system bytes and block numbers) did not all "
+                            f"arrive whole: sent {[(m[0], m[1], m[2], len(m[4])) for m in msgs]}, received {[(g[0], g[1], g[2], len(g[4])) for g in got]}", case)
+            blocks_on_line = list(pair.queued[rkey])
+            cases.append(case)
+            lines.append("secsi reasm " + " ".join(blocks_on_line))
+            answers.append("ok " + ";".join(show_block_of_message(m) for m in pair.got[rkey]) + " | pending=")
+        except Exception as exc:  # noqa: BLE001
+            res.violate("reassembly", f"receive-path scenario: {hlib.errkind(exc)}: {exc}", {"i": i})
+        finally:
+            pair.close()
+    hlib.compare_batch(res, drv, "SecsIProtocol receive path (blocks accepted in line order) vs Model.SecsI.reassemble", cases, lines, answers)
 
     res.dump(a.out)
 
